@@ -625,3 +625,55 @@ def field_producers(prog, field):
             if pr and isinstance(pr[-1], dict) and pr[-1].get("n") == field:
                 out.append((f, c.bb, pr[-1].get("of"), None, c))
     return out
+
+
+def backward_calls(prog, fn, start, depth=6, _seen=None):
+    """Projection-insensitive backward slice of a value: the calls of *program* functions whose results can flow into
+    it.  Library combinators (`then`, `map`, `transpose`, `flatten`, `?`, `unwrap_or` ...) are looked through - into
+    their arguments and into the return values of closures passed to them.  Returns (calls, other_leaves) where
+    other_leaves are the non-constant, non-parameter origins that are not calls (e.g. arithmetic)."""
+    from .facts import norm_path
+    if _seen is None:
+        _seen = set()
+    calls, leaves = [], []
+    for o in origins(fn, start):
+        key = (fn.path, o.key())
+        if key in _seen:
+            continue
+        _seen.add(key)
+        if o.kind == "call":
+            c = o.call
+            if prog.has_fn(c.name) and prog.fn(c.name).kind != "closure":
+                calls.append(c)
+                continue
+            if depth <= 0:
+                leaves.append((fn, o))
+                continue
+            for a in c.args:
+                if "c" in a:
+                    continue
+                sub = origins(fn, a)
+                cl = [x for x in sub if x.kind == "agg" and x.rv.get("closure")]
+                if cl:
+                    for x in cl:
+                        g = prog.fns.get(norm_path(x.rv["closure"]))
+                        if g is not None:
+                            cs, ls = backward_calls(prog, g, 0, depth - 1, _seen)
+                            calls += cs
+                            leaves += ls
+                else:
+                    cs, ls = backward_calls(prog, fn, a, depth - 1, _seen)
+                    calls += cs
+                    leaves += ls
+        elif o.kind == "bin":
+            for side in ("a", "b"):
+                if "c" not in o.rv[side]:
+                    cs, ls = backward_calls(prog, fn, o.rv[side], depth - 1, _seen)
+                    calls += cs
+                    leaves += ls
+        elif o.kind in ("const", "arg"):
+            if o.kind == "arg":
+                leaves.append((fn, o))
+        else:
+            leaves.append((fn, o))
+    return calls, leaves
